@@ -157,6 +157,18 @@ check("C09", "exploration",
       "deterministic simulation with fault injection: seeded schedule/fault/crash search; every secret write judged against the recorded function output and the read log",
       "§7 C09")
 
+check("C02", "exploration",
+      "Seeded deterministic simulation over four worlds (one drawn per run) in which a stranger - an owner that is not the Crossplane owner - places objects carrying controller:true for a foreign UID at the names Crossplane is about to write: "
+      "W-xr: the name a function asks for (both composers run; functions choose metadata.name), an object named in spec.resourceRefs and annotated with a template/resource name, the XR's connection secret; "
+      "W-claim: the claim's connection secret under both syncers, and the composite or claim CRD name the XRD controllers derive (placed before they first run); "
+      "W-pkg: the PackageRevision name the manager derives for one version, and package objects (CRDs) of Provider/Configuration/Function packages; "
+      "W-rbac: the ClusterRoles rbac/definition and rbac/provider/roles derive and the ClusterRoleBinding rbac/provider/binding derives (real reconcilers). API faults, lost replies, conflicts and crashes on top. "
+      "Oracles: every foreign object stays byte-identical after every scheduler step; the write log never shows a committed update/patch/delete by a Crossplane actor addressed to it; for a blocked XR the conflict is visible as a Warning event or a non-True Synced condition at quiescence (counted). "
+      "Masked exactly as the property scopes out: the plain owner reference an inactive package revision adds. A revision controller's own bookkeeping on a foreign-controlled revision object is not an act on behalf of a package and is not judged.",
+      TB + " Composed-resource names that Crossplane generates randomly cannot be squatted in advance; that placement is exercised through functions that choose metadata.name and through spec.resourceRefs.",
+      "deterministic simulation with fault injection: seeded placement/schedule/fault/crash search; snapshot equality after every step and write-log scan",
+      "§7 C02")
+
 def main():
     props = [json.loads(l)["id"] for l in open(os.path.join(V, "properties.jsonl"))]
     na = []
